@@ -132,7 +132,19 @@ func (f *flowSpec) Call(x *gea.Exec, st *gea.State, call *ast.CallExpr, env *gea
 			return one(st)
 		}
 		s := x.Effect(st, "CALL:"+qn, call.Pos(), args)
-		return one(x.GenericCallKill(s, call, env))
+		s = x.GenericCallKill(s, call, env)
+		// a method called on our receiver may rewrite the receiver's fields: values read
+		// from those fields afterwards are new values
+		if fi := p.ByObj[callee]; fi != nil && args["recv"] == "m" && f.c != nil {
+			for k := range f.c.G.Summary(fi) {
+				for _, pre := range []string{"W:Memberlist.", "WELEM:Memberlist.", "MAPINS:Memberlist.", "MAPDEL:Memberlist."} {
+					if strings.HasPrefix(k, pre) {
+						s = x.Kill(s, "m."+strings.TrimPrefix(k, pre), false, x.Tok(call.Pos()))
+					}
+				}
+			}
+		}
+		return one(s)
 	}
 	switch {
 	case strings.HasPrefix(full, "github.com/hashicorp/go-metrics"), strings.HasPrefix(full, "log."), strings.HasPrefix(full, "fmt."):
